@@ -306,9 +306,13 @@ impl TransportVisitor for V {
 
 pub fn run(tkind: TKind, depth: usize) {
     hal::reset();
-    let feats = [F_VERSION_1, F_VERSION_1 | F_INDIRECT | F_EVENT_IDX];
+    // The third set also offers the console's own features (size, multiport, emergency write):
+    // data still travels through the queues only.
+    let feats = [F_VERSION_1, F_VERSION_1 | F_INDIRECT | F_EVENT_IDX, F_VERSION_1 | 0x7];
     let offered = feats[choose(feats.len(), "offered features")];
     let w = DWorld::new(Kind::Console, tkind, offered, Kind::Console.default_config());
+    // (One step shallower for the third set: the alphabet has 17 operations.)
+    let depth = if offered & 0x7 != 0 { depth.saturating_sub(1).max(1) } else { depth };
     w.with_transport(V { depth });
     mmio::set_handler(None);
 }
